@@ -52,7 +52,9 @@ def gen(rng, tier):
                     # an input that FAILED WITH a CancelledError instance is failed, not cancelled
                     "cerr": rng.random() < 0.15})
     spec = {"op": op, "ins": ins, "dup": (rng.randrange(n), rng.randrange(n)) if n >= 2 and rng.random() < 0.2 else None,
-            "cancel_at": rng.choice([None, None, None, 0, 0.05]), "settle": 5.0}
+            "cancel_at": rng.choice([None, None, None, 0, 0.05]), "settle": 5.0,
+            # the caller's own clean-up: a done-callback on the output that cancels one of the inputs
+            "cleanup_cb": rng.randrange(n) if n >= 2 and rng.random() < 0.2 else None}
     spec["sim"] = runner.draw_sim_cfg(rng, est=300)
     spec["sim"]["horizon_s"] = 5000
     return spec
@@ -118,6 +120,14 @@ def run(spec, env):
         return
     env.rec("built")
     env.objs["single_is_input"] = (out is args[0]) if len(args) == 1 else None
+    if spec.get("cleanup_cb") is not None and len(args) > 1:
+        j = spec["cleanup_cb"]
+
+        def cleanup(_f):
+            env.rec("cleanup-cancel", j)
+            sim.yield_point("user-cb")
+            wrapped[j].cancel()
+        out.add_done_callback(cleanup)
 
     def completer(k):
         def body():
